@@ -1,0 +1,18 @@
+//go:build verif
+// +build verif
+
+package cluster
+
+import "google.golang.org/grpc"
+
+// VerifDialOptions lets the simulation harness in /verif append gRPC dial
+// options (client interceptors and a dialer that never opens a socket) to
+// every connection a Conn creates. Build tag "verif" only.
+var VerifDialOptions func(c *Conn) []grpc.DialOption
+
+func (this *Conn) verifDialOptions() []grpc.DialOption {
+	if VerifDialOptions == nil {
+		return nil
+	}
+	return VerifDialOptions(this)
+}
